@@ -2,6 +2,7 @@ package sym
 
 import (
 	"go/token"
+	"go/types"
 )
 
 // Channel semantics of the sequentialised goroutine model (extends calls.go execGo/runPendingGoroutines).
@@ -53,6 +54,9 @@ func (it *Interp) chanSendModel(ch Value, v Value) {
 	if c == nil {
 		it.abort("send on nil channel blocks forever")
 	}
+	if it.chanClosedSet()[c] {
+		it.goPanicStr("send-closed-chan", "send on closed channel")
+	}
 	room := len(c.Buf) < c.Cap
 	rendezvous := c.Cap == 0 && len(c.Buf) == 0 && it.chanSt().recvWait[c] > 0
 	if !room && !rendezvous {
@@ -61,7 +65,7 @@ func (it *Interp) chanSendModel(ch Value, v Value) {
 	c.Buf = append(c.Buf, deepCopy(v))
 }
 
-func (it *Interp) chanRecvModel(ch Value, commaOk bool) Value {
+func (it *Interp) chanRecvModel(ch Value, commaOk bool, chanType types.Type) Value {
 	c, ok := ch.(*ChanObj)
 	if !ok {
 		it.abort("receive on %T", ch)
@@ -69,13 +73,19 @@ func (it *Interp) chanRecvModel(ch Value, commaOk bool) Value {
 	if c == nil {
 		it.abort("receive on nil channel blocks forever")
 	}
-	if len(c.Buf) == 0 {
+	if len(c.Buf) == 0 && !it.chanClosedSet()[c] {
 		st := it.chanSt()
 		st.recvWait[c]++
-		for len(c.Buf) == 0 && len(it.M.goQueue) > 0 {
+		for len(c.Buf) == 0 && len(it.M.goQueue) > 0 && !it.chanClosedSet()[c] {
 			it.runOneGoroutine()
 		}
 		st.recvWait[c]--
+	}
+	if len(c.Buf) == 0 && chanType != nil {
+		// closed and drained: (zero value, false)
+		if r, ok := it.chanRecvClosed(c, commaOk, chanType); ok {
+			return r
+		}
 	}
 	if len(c.Buf) == 0 {
 		// nobody can ever send: every other goroutine has finished or is blocked below this one. If a receiver
